@@ -1101,6 +1101,112 @@ def check_ops(p, ref, V, others, thorough):
 
 
 # ------------------------------------------------------------------------------------------
+# history space: ONE RectGrid object shared by several partitions of different sets
+
+HVECS = [[1.0], [0.5, 1.5, 2.5], [2.0], [0.0, 1.0], [0.0, 1.0, 3.0]]
+HOFFS = [(0.25, 0.25), (1.0, 0.25), (0.0, 1.0)]      # limits of partition k: x[0]-a, x[-1]+b
+OBS_P = ['cell_sides', 'cell_volume', 'cell_sizes_vecs', 'cell_boundary_vecs',
+         'boundary_cell_fractions', 'has_isotropic_cells', 'extent', 'nodes_on_bdry']
+OBS_P3 = ['cell_sides', 'cell_volume', 'cell_sizes_vecs', 'boundary_cell_fractions']
+OBS_G = ['stride', 'extent', 'coord_vectors']
+GRID_STATE = ['stride', 'coord_vectors', 'min_pt', 'max_pt', 'extent', 'shape',
+              'is_uniform_byaxis', 'nondegen_byaxis']
+UNIFORM_ONLY = ('cell_sides', 'cell_volume', 'has_isotropic_cells', 'stride')
+
+
+def _canon(v):
+    """Value of an observable as a comparable text (NaN equals NaN, -0.0 differs from 0.0)."""
+    if isinstance(v, (tuple, list)):
+        return '(' + ','.join(_canon(e) for e in v) + ')'
+    if isinstance(v, np.ndarray):
+        return 'a' + repr(v.tolist())
+    if isinstance(v, (float, np.floating)):
+        return repr(float(v))
+    return repr(v)
+
+
+def _hist_build(cfg, shared=True):
+    """-> (grid, [partitions]).  shared: all partitions on the same RectGrid object;
+    else every partition on its own fresh grid (the independent twin)."""
+    vecs = [HVECS[i] for i in cfg['axes']]
+    parts = []
+    grid = odl.RectGrid(*vecs)
+    for k in range(cfg['nparts']):
+        a, b = HOFFS[k]
+        lo = [v[0] - a for v in vecs]
+        hi = [v[-1] + b for v in vecs]
+        if shared:
+            g = grid if (k == 0 or cfg['mode'] == 'fromgrid') else parts[0].grid
+        else:
+            g = odl.RectGrid(*vecs)
+        if cfg['mode'] == 'fromgrid':
+            parts.append(odl.uniform_partition_fromgrid(g, min_pt=lo, max_pt=hi))
+        else:
+            parts.append(odl.RectPartition(odl.IntervalProd(lo, hi), g))
+    return grid, parts
+
+
+def _hist_read(grid, parts, rd):
+    who, obs = rd
+    return _canon(getattr(grid if who == 'g' else parts[who], obs))
+
+
+def run_history(cfg):
+    """Every sequence of readings up to the depth on partitions that share one grid object.
+    Differential oracle: each reading equals the first reading of the same observable on an
+    independently built twin (own grid, own set); after the sequence the observables of the
+    shared grid equal those of a fresh grid."""
+    V = Viol()
+    site = 'shared_grid[%s]' % cfg['mode']
+    vecs = [HVECS[i] for i in cfg['axes']]
+    uniform = all(R.Ax(0, 0, v).uniform for v in vecs)
+    obs_p = OBS_P if cfg['depth'] <= 2 else OBS_P3
+    readings = [(k, o) for k in range(cfg['nparts']) for o in obs_p] + [('g', o) for o in OBS_G]
+    if not uniform:
+        # `cell_sides`, `cell_volume`: "Only defined if ``self.grid`` is uniform."
+        V.skipped += sum(1 for r in readings if r[1] in UNIFORM_ONLY)
+        readings = [r for r in readings if r[1] not in UNIFORM_ONLY]
+    V.sigs.add('hist:%dd:%s:%d:%s' % (len(vecs), cfg['mode'], cfg['nparts'],
+                                       'uniform' if uniform else 'nonuniform'))
+    try:
+        twin = {}
+        for rd in readings:
+            g, ps = _hist_build(cfg, shared=False)
+            twin[rd] = _hist_read(g, ps, rd)
+        fresh = odl.RectGrid(*vecs)
+        gstate = dict((o, _canon(getattr(fresh, o))) for o in GRID_STATE
+                      if uniform or o != 'stride')
+    except Exception as e:       # noqa
+        V.evals += 1
+        V.add(site, 'raises:' + type(e).__name__, 'twin of %s: %r' % (cfg, e))
+        return V.result()
+    desc = 'grid %s, sets %s' % (vecs, [[(v[0] - a, v[-1] + b) for v in vecs]
+                                        for a, b in HOFFS[:cfg['nparts']]])
+    for depth in range(1, cfg['depth'] + 1):
+        for seq in itertools.product(readings, repeat=depth):
+            grid, parts = _hist_build(cfg, shared=True)
+            try:
+                for step, rd in enumerate(seq):
+                    got = _hist_read(grid, parts, rd)
+                    V.evals += 1
+                    if got != twin[rd]:
+                        V.add(site, 'history_dependent:' + rd[1],
+                              '%s; readings %s: step %d gives %s, an independently built twin '
+                              'gives %s' % (desc, list(seq), step, got, twin[rd]))
+                for o, want in gstate.items():
+                    got = _canon(getattr(grid, o))
+                    V.evals += 1
+                    if got != want:
+                        V.add(site, 'grid_changed:' + o,
+                              '%s; after readings %s: grid.%s = %s, fresh grid %s'
+                              % (desc, list(seq), o, got, want))
+            except Exception as e:       # noqa
+                V.add(site, 'raises:' + type(e).__name__, '%s; readings %s: %r'
+                      % (desc, list(seq), e))
+    return V.result()
+
+
+# ------------------------------------------------------------------------------------------
 # the bounded space
 
 def _uni_axes():
@@ -1150,6 +1256,8 @@ def _complexity(axes, kind):
         return sum(a[2] for a in axes)
     if kind == 'non':
         return sum(len(VECS[a[0]]) for a in axes)
+    if kind == 'hist':
+        return sum(len(HVECS[i]) for i in axes)
     return sum(POOL[i].n for i in axes)
 
 
@@ -1223,6 +1331,17 @@ def configs(tier):
             bases.append(('pool', list(t), ['ops']))
     for t in itertools.product(range(3), repeat=4) if thorough else []:
         bases.append(('pool', list(t), ['ops']))
+    hist = []
+    nh = len(HVECS)
+    for nd in ((1, 2, 3) if thorough else (1, 2)):
+        ids = range(nh) if nd < 3 else range(3)
+        for t in itertools.product(ids, repeat=nd):
+            for mode in ('fromgrid', 'RectPartition'):
+                hist.append({'kind': 'hist', 'axes': list(t), 'what': 'history', 'mode': mode,
+                             'nparts': 3 if thorough else 2, 'depth': 2})
+                if thorough and nd < 3:
+                    hist.append({'kind': 'hist', 'axes': list(t), 'what': 'history',
+                                 'mode': mode, 'nparts': 3, 'depth': 3})
     cfgs, seen = [], set()
     for kind, axes, whats in bases:
         for w in whats:
@@ -1237,11 +1356,14 @@ def configs(tier):
     full = set(repr((c['kind'], c['axes'])) for c in cfgs if c.get('full2'))
     cfgs = [c for c in cfgs if not (c['what'] == 'getitem' and not c.get('full2')
                                     and repr((c['kind'], c['axes'])) in full)]
+    cfgs += hist
     cfgs.sort(key=lambda c: (len(c['axes']), _complexity(c['axes'], c['kind'])))
     return cfgs
 
 
 def run(cfg):
+    if cfg['kind'] == 'hist':
+        return run_history(cfg)
     V = Viol()
     b = base_of(cfg, V)
     nd = len(cfg['axes'])
@@ -1273,7 +1395,7 @@ def run(cfg):
 
 def trace_functions():
     RP = OP.RectPartition
-    return [RP.__init__, RP.__getitem__, RP.index, RP.squeeze, RP.insert, RP.nodes_on_bdry,
+    return [OG.RectGrid.stride, RP.__init__, RP.__getitem__, RP.index, RP.squeeze, RP.insert, RP.nodes_on_bdry,
             RP.cell_sizes_vecs, RP.boundary_cell_fractions, RP.cell_sides,
             OP.uniform_partition, OP.uniform_partition_fromgrid, OP.uniform_partition_fromintv,
             OP.nonuniform_partition, OG.RectGrid.__getitem__, OG.RectGrid.insert,
@@ -1309,7 +1431,12 @@ def meta(tier):
                 'index expression of the alphabet, then from every distinct child the '
                 'invariants, the point check and a second round of index expressions (depth 2). '
                 'ops: insert/append/squeeze/byaxis with all positions / axis subsets / axis '
-                'sequences. All points of the domain are decided per cell by the points listed '
+                'sequences. history: one RectGrid object (incl. 1-point axes) shared by 2-3 '
+                'partitions of different sets (uniform_partition_fromgrid / RectPartition(set, '
+                'p.grid)); every sequence of readings (8 partition observables per partition, 3 '
+                'grid observables) up to depth 2 (depth 3 on 4 observables, thorough); each '
+                'reading equals the reading on an independently built twin and the shared '
+                "grid's observables stay those of a fresh grid. All points of the domain are decided per cell by the points listed '
                 '(index is piecewise affine between cell boundaries). distinct = distinct '
                 '(family, exactness class, nodes_on_bdry form, route set, child count, '
                 'executed-line signature)',
